@@ -119,6 +119,9 @@ inductive StatsErr where
   | sameHierarchy | unknownLevel | shuffledLevels
   /-- `merge_precompute_files`: empty list, different `cluster_to_row` / `col_names` -/
   | noFiles | differentLayout
+  /-- `_precompute_summary_stats_from_h5ad_and_lookup`: a file whose ordered
+  `var` index differs from the first file's ("has gene_names ... which does not match") -/
+  | geneMismatch
   deriving Repr, BEq, DecidableEq, Inhabited
 
 def StatsErr.name : StatsErr → String
@@ -127,7 +130,7 @@ def StatsErr.name : StatsErr → String
   | .noBuffers => "noBuffers" | .keyError => "keyError"
   | .sameHierarchy => "sameHierarchy" | .unknownLevel => "unknownLevel"
   | .shuffledLevels => "shuffledLevels" | .noFiles => "noFiles"
-  | .differentLayout => "differentLayout"
+  | .differentLayout => "differentLayout" | .geneMismatch => "geneMismatch"
 
 /-! ### the work split of `_precompute_summary_stats_from_h5ad_and_lookup` -/
 
@@ -277,6 +280,23 @@ def precompute (nClusters g : Nat) (nameToRow : List (Nat × Nat))
     match mapMExcept (processSpec nClusters g nameToRow) loads with
     | .error e => .error e
     | .ok bufs => mergeBuffers nClusters g bufs
+
+/-- the census of `var` before any work: every file of `data_path_list` (wanted
+or not) must list the same gene names IN THE SAME ORDER as the first one —
+the arrays are accumulated column by column under the first file's
+`col_names`.  `geneLists` = the ordered `var` index of every file. -/
+def genesAgree : List (List Nat) → Bool
+  | [] => true
+  | g0 :: rest => rest.all (fun g => g == g0)
+
+/-- `_precompute_summary_stats_from_h5ad_and_lookup` including the `var` census;
+files are identified by their position in `data_path_list` (their full path),
+never by their base name -/
+def precomputeChecked (geneLists : List (List Nat)) (nClusters g : Nat)
+    (nameToRow : List (Nat × Nat)) (files : List (Nat × List CellRec)) (rows nProc : Nat) :
+    Except StatsErr Buffer :=
+  if genesAgree geneLists then precompute nClusters g nameToRow files rows nProc
+  else .error .geneMismatch
 
 /-! ### integer width of the scratch buffers
 
